@@ -406,6 +406,9 @@ fn inject_one(module: &mut Module<'static>, e: &J) -> Result<(), String> {
 pub struct CaseOut {
     pub ev: J,
     pub bytes: Option<Vec<u8>>,
+    /// when a second encode() without edits yields different bytes, the second output is a module
+    /// of its own that must satisfy the same properties: it is judged as a derived case
+    pub second: Option<J>,
 }
 
 pub fn run_case(case: &J, enc2: bool) -> CaseOut {
@@ -421,14 +424,14 @@ pub fn run_case(case: &J, enc2: bool) -> CaseOut {
     }
     if let Err(e) = validate(&input) {
         ev["skip"] = json!(format!("invalid input: {}", e));
-        return CaseOut { ev, bytes: None };
+        return CaseOut { ev, bytes: None, second: None };
     }
     // the original body in the decoder's normal form (also cross-checks encoder/decoder of the harness)
     match decode_body(&input) {
         Ok((orig, _)) => ev["orig"] = json!(orig),
         Err(e) => {
             ev["skip"] = json!(format!("harness decode: {}", e));
-            return CaseOut { ev, bytes: None };
+            return CaseOut { ev, bytes: None, second: None };
         }
     }
     let input = leak(input);
@@ -436,11 +439,11 @@ pub fn run_case(case: &J, enc2: bool) -> CaseOut {
         Ok(Ok(m)) => m,
         Ok(Err(e)) => {
             ev["skip"] = json!(format!("parse error: {:?}", e));
-            return CaseOut { ev, bytes: None };
+            return CaseOut { ev, bytes: None, second: None };
         }
         Err(p) => {
             ev["skip"] = json!(format!("parse panic: {}", p));
-            return CaseOut { ev, bytes: None };
+            return CaseOut { ev, bytes: None, second: None };
         }
     };
     if let Ok(mut g) = LOGS.lock() {
@@ -472,7 +475,7 @@ pub fn run_case(case: &J, enc2: bool) -> CaseOut {
             ev["err"] = json!("");
             ev["same2"] = json!(true);
             ev["nd"] = json!(false);
-            CaseOut { ev, bytes: None }
+            CaseOut { ev, bytes: None, second: None }
         }
         Ok(out) => {
             ev["encode_panic"] = json!(false);
@@ -490,9 +493,33 @@ pub fn run_case(case: &J, enc2: bool) -> CaseOut {
                     ev["locals"] = json!([]);
                 }
             }
+            let mut second = None;
             let same2 = if enc2 {
                 match guarded(|| module.encode()) {
-                    Ok(o2) => o2 == out,
+                    Ok(o2) => {
+                        if o2 != out {
+                            let mut e2 = ev.clone();
+                            e2["id"] = json!(id + 10_000_000);
+                            e2["second"] = json!(true);
+                            let v = validate(&o2);
+                            e2["valid"] = json!(v.is_ok());
+                            e2["err"] = json!(v.err().unwrap_or_default());
+                            match decode_body(&o2) {
+                                Ok((low, locals)) => {
+                                    e2["low"] = json!(low);
+                                    e2["locals"] = json!(locals);
+                                }
+                                Err(e) => {
+                                    e2["low"] = json!([{"o":"foreign","txt":e}]);
+                                    e2["locals"] = json!([]);
+                                }
+                            }
+                            e2["same2"] = json!(true);
+                            e2["nd"] = json!(false);
+                            second = Some(e2);
+                        }
+                        o2 == out
+                    }
                     Err(_) => false,
                 }
             } else {
@@ -500,7 +527,7 @@ pub fn run_case(case: &J, enc2: bool) -> CaseOut {
             };
             ev["same2"] = json!(same2);
             ev["nd"] = json!(false);
-            CaseOut { ev, bytes: Some(out) }
+            CaseOut { ev, bytes: Some(out), second }
         }
     }
 }
@@ -544,6 +571,9 @@ pub fn main(args: &[String]) {
             skipped += 1;
         }
         out.ev(first.ev);
+        if let Some(s) = first.second {
+            out.ev(s);
+        }
     }
     out.flush();
     println!("{{\"cases\":{},\"skipped\":{}}}", out.n, skipped);
